@@ -154,7 +154,7 @@ def jobs(tier, gen_dir):
 
 TRUSTED = [
     "std::vector<ViewSegmentNumbers> modelled as a bounded array (capacity 8 asserted) / as ghost counters for the subset output",
-    "SYM_VALID is what the DataSymmetriesForBins_PET_CartesianGrid constructor establishes (flag normalisation read from the source; not itself under contract)",
+    "SYM_VALID is what the DataSymmetriesForBins_PET_CartesianGrid constructor establishes: proved under C03 (kernels K_sym_ctor_init / K_sym_ctor_flags, lemma_sym_valid) for cylindrical scanners; used here as a precondition",
     "view range of the data is [0,num_views) when view symmetries are enabled; segment range symmetric when swap_segment is enabled",
     "randomly_permute_subset_order delivers a permutation (assumed contract in the get_subset_num job)",
     "callers loop over all TOF bins around the view-segment list (not checked here)",
